@@ -83,12 +83,42 @@ def kindStr : Option BKind → String
   | some (.c .not) => "Cnot"
   | some (.c .ovr) => "Covr"
   | some (.c .any) => "Cany"
+  | some (.c (.sig _)) => "Csig"
 
-def parseCls : String → Option CCls
-  | "not" => some .not
-  | "ovr" => some .ovr
-  | "any" => some .any
-  | _ => none
+def parseOptNat (s : String) : Option (Option Nat) :=
+  if s == "n" then some none else s.toNat?.map some
+
+/-- `n` (single) | `<k>` (exact size) | `<lo>~<hi>` with `n` for an open bound | `bad` -/
+def parseExpect (s : String) : Option Expect :=
+  if s == "n" then some .single
+  else if s == "bad" then some .malformed
+  else match s.splitOn "~" with
+    | [k] => Expect.exact <$> k.toNat?
+    | [lo, hi] => do pure (.range (← parseOptNat lo) (← parseOptNat hi))
+    | _ => none
+
+def nodupStrs : List String → Bool
+  | [] => true
+  | k :: r => !(r.contains k) && nodupStrs r
+
+def parseEsig (s : String) : Option (List (String × Expect)) :=
+  if s == "-" then some []
+  else do
+    let l ← (s.splitOn ";").mapM fun item =>
+      match item.splitOn "=" with
+      | [k, v] => (fun e => (k, e)) <$> parseExpect v
+      | _ => none
+    if nodupStrs (l.map (·.1)) then pure l else none
+
+def parseCls (s : String) : Option CCls :=
+  match s.toList with
+  | 's' :: 'i' :: 'g' :: ':' :: r => CCls.sig <$> parseEsig (String.ofList r)
+  | _ =>
+    match s with
+    | "not" => some .not
+    | "ovr" => some .ovr
+    | "any" => some .any
+    | _ => none
 
 def nodupKeys (l : List (String × Inp)) : Bool :=
   match l with
